@@ -162,7 +162,7 @@ def _generate_cyclic(rng: random.Random, tier: str):
                 yield mk_case("tracklets_all", 4, edges, labels)
     pairs = [(a, b) for a in range(4) for b in range(4)]
     parts4 = list(set_partitions(4))
-    for _ in range(1500 if tier == "quick" else 20000):
+    for _ in range(1500 if tier == "quick" else 12000):
         dens = rng.choice([0.15, 0.25, 0.35, 0.5])
         edges = [p for p in pairs if rng.random() < (dens if p[0] != p[1] else dens / 2)]
         yield mk_case("tracklets_all", 4, edges, rng.choice(parts4))
